@@ -401,8 +401,46 @@ def local_context(it):
     return module, function
 
 
+def local_context_with(it, params, groups):
+    def module(interp):
+        m = interp.zero_init('struct WasmModule')
+        m['functionTypes'] = {'functionTypes': Ptr([emit.func_type(params, ['i32'])], 0), 'count': 1}
+        return m
+
+    def function(interp):
+        f = interp.zero_init('struct WasmFunction')
+        f['functionTypeIndex'] = 0
+        f['localsDeclarations'] = {'declarations': Ptr([{'type': emit.VT[t], 'count': n} for t, n in groups], 0) if groups else 0,
+                                   'declarationCount': len(groups)}
+        return f
+    return module, function
+
+
+def check_local_groups(chk, it, tabs):
+    """R03.5 over locals vectors with empty groups (valid, e.g. `0 x i32, 1 x i64`), many groups and no parameters"""
+    L = tabs['letter']
+    shapes = [([], [('i32', 0), ('i64', 1)]), (['i64'], [('i32', 0), ('i64', 1)]), (['i32'], [('i64', 2), ('f32', 0), ('f64', 1)]),
+              ([], [('f32', 1), ('i32', 0)]), (['f64', 'i32'], [('i32', 0), ('i32', 0), ('i64', 1), ('f32', 0)]), (['i32'], [])]
+    for params, groups in shapes:
+        module, function = local_context_with(it, params, groups)
+        types = list(params) + [t for t, n in groups for _ in range(n)]
+        label = 'params=%r,locals=%r' % (params, groups)
+        for k, t_ in enumerate(types):
+            tp = one(chk, run_script(it, script(('local.get', {'imm0': k})), ['i64'], module=module, function=function), 'local.get', 'R03.5', 'wasmLocalsDeclarationsGetType')
+            if tp is None:
+                continue
+            m = re.fullmatch(r's(\w)1\s*=\s*l%d;\s*' % k, tp.text())
+            chk.expect(m is not None and m.group(1) == L[t_] and tp.stack_after == ['i64', t_], 'R03.5', 'local-type[%s,#%d]' % (label, k),
+                       'local %d of a function with %s has type %s: local.get must read l%d into a %s slot; emitted %r, stack %r'
+                       % (k, label, t_, k, t_, tp.text(), tp.stack_after), 'wasmLocalsDeclarationsGetType')
+        tp = run_script(it, script(('local.get', {'imm0': len(types)})), ['i64'], module=module, function=function)
+        chk.expect(all(not t.ok for t in tp), 'R03.5', 'local-index-checked[%s]' % label,
+                   'local.get %d of a function with only %d locals (%s) is translated' % (len(types), len(types), label), 'wasmLocalsDeclarationsGetType')
+
+
 def check_locals(chk, it, tabs):
     L = tabs['letter']
+    check_local_groups(chk, it, tabs)
     module, function = local_context(it)
     want_t = ['i32', 'f64', 'i64', 'i64', 'f32']
     for k, t_ in enumerate(want_t):
